@@ -20,7 +20,7 @@ P = Property('C04', 'other',
              'contract-based deductive verification: VCs generated from the real AST (pyvc), z3/cvc5; bounded model checks',
              design_ref='DESIGN.md section 6, C04')
 P.trust('assumed contract of Sector.AddCashFlow(term, eqn: str) (ledger clauses as verified for eqn=None in C06; the definition rule is bounded, dyn/C06.py)',
-        'contracts of GetVariableName (C05), create_equation_from_terms (C12), CurrencyZone.GetSectors and SetEquationRightHandSide (C18), AddVariable (C11)')
+        'contracts of GetVariableName (C05), create_equation_from_terms (C12), CurrencyZone.GetSectors and SetEquationRightHandSide (C18), AddVariable (assumed contract; rejection clause verified in C11)')
 P.not_decided.append('_GenerateMultiSupply (supply = demand, residual supplier, cross-currency suppliers), MoneyMarket / DepositMarket aggregation and '
                      'GenerateAssetWeighting are not under contract: bounded on solved models (dyn/C04.py)')
 P.replay_script = 'dyn/C04.py'
@@ -101,3 +101,47 @@ P.bound('markets', 'dyn/C04.py', 'markets', 'random economies (regional markets 
         'suppliers, money / deposit markets with asset allocation), solved: 25 (quick) / 500 (thorough)',
         'clearing identities on the solved series: demand = sum of declared demands of the zone, supply = demand, allocations add up, each supplier records '
         'what the market assigns (at the cross rate), asset demands add up to financial assets')
+
+# ---- Sector.GenerateAssetWeighting (dict form) ------------------------------------------------------------------------
+ArrS_ = z3.ArraySort(z3.IntSort(), z3.StringSort())
+WChain = z3.Function('weight_chain', ArrS_, z3.IntSort(), z3.StringSort())
+
+
+@specfn('weight_chain')
+def weight_chain(ctx, d, i):
+    """'1.0' followed by ' - WGT_<code>' for the first i codes of the dict, in iteration order (recursive definition, unfolded at i)"""
+    kl = ctx.st.dict_keylist(d)
+    E = ctx.st.list_elems(kl)
+    t = i.t
+    sv_ = z3.StringVal
+    ctx.side.extend([WChain(E, z3.IntVal(0)) == sv_('1.0'),
+                     z3.Implies(t > 0, WChain(E, t) == z3.Concat(WChain(E, t - 1), sv_(' - '), sv_('WGT_'), z3.Select(E, t - 1)))])
+    return SV(STR, WChain(E, t))
+
+
+AW = 'asset_weighting_dict'
+BLK4 = 'self.EquationBlock.Equations'
+
+
+def blob(var, text):
+    e = '%s[%s]' % (BLK4, var)
+    return 'has(%s, %s) and len(%s.TermList) == 1 and %s.TermList[0].IsBlob and %s.TermList[0].Term == nospace(%s)' % (BLK4, var, e, e, e, text)
+
+
+P.verify(fn(
+    'sfc_models.sector.Sector.GenerateAssetWeighting', name='sfc_models.sector.Sector.GenerateAssetWeighting[dict]',
+    args=dict(self=Ref('Sector'), asset_weighting_dict=Dict(STR, STR), residual_asset_code=STR, is_absolute_weighting=BOOL),
+    requires=[('relative_weights', 'not is_absolute_weighting'),
+              ('codes_are_local_names', "all(implies(has(%s, s), not ('__' in 'WGT_' + s)) for s in strings()) and not ('__' in 'WGT_' + residual_asset_code)" % AW),
+              ('the_rule_table_is_not_the_equation_block', '%s is not %s and keys(%s) is not keys(%s)' % (AW, BLK4, AW, BLK4))],
+    loops={0: LoopSpec(header='for (code, weight_eqn) in asset_weighting_dict.items()', index='b', ghost={'H0': 'heap_now()'},
+                       modifies=['len.R', 'el.R', 'len.S', 'el.S', 'dh.S.R', 'dv.S.R', 'dk', 'tyof', 'f.Equation.*', 'f.Term.*'], invariants=[
+        ('bounds', '0 <= b and b <= len(keys(%s))' % AW),
+        ('rule_table_untouched', 'dict_same_as(H0, %s)' % AW),
+        ('residual_weight_is_one_minus_every_weight_so_far', 'residual_weight == weight_chain(%s, b)' % AW),
+        ('block_kept', 'self.EquationBlock is old(self.EquationBlock) and %s is old(%s) and keys(%s) is not keys(%s) and not fresh(keys(%s))' % (BLK4, BLK4, AW, BLK4, AW)),
+    ])},
+    ensures=[('residual_weight_is_one_minus_every_other_weight', blob("'WGT_' + residual_asset_code", 'weight_chain(%s, len(keys(%s)))' % (AW, AW))),
+             ('residual_demand_is_wealth_times_its_weight', blob("'DEM_' + residual_asset_code", "'F * WGT_' + residual_asset_code"))],
+    raises=[RaisesSpec('ValueError', when='True')],
+))
